@@ -137,7 +137,9 @@ def run_native(prop, tier, seed, only=None, extra=None, mod=None):
     test seeds its own generator from (seed, test name)); their reports are merged."""
     if mod is not None and not extra:
         tests = []
-        for item in mod.ITEMS:
+        from contracts import probes as _probes
+        pit = _probes.probe_item(mod)
+        for item in list(mod.ITEMS) + ([pit] if pit is not None and not only else []):
             for name, fn in (getattr(item, 'native', None) or []):
                 if not only or only in item.name:
                     k = getattr(fn, 'shards', 1)
@@ -256,6 +258,9 @@ def report(prop, tier, seed, mod, results, native, wall):
     undecided_fns = [u for r in results for u in r['undecided']]
     for sk in native.get('skipped') or []:
         undecided_fns.append(dict(fn='native:' + sk.get('test', '?'), reason=sk.get('reason', 'skipped')))
+    for nf in (x for x in native.get('failures', []) if str(x.get('test', '')).startswith('trusted-base.')):
+        undecided_fns.append(dict(fn='trusted-base:' + str(nf.get('fn')), reason='TRUSTED-BASE PROBE FAILED (%s): %s -> expected %s, observed %s' % (
+            nf.get('test'), str(nf.get('input'))[:200], str(nf.get('expected'))[:100], str(nf.get('observed'))[:100])))
     bounded = [o for o in obls if o['kind'] == 'bounded']
     failed = [o for o in proof + bounded if o['status'] == 'failed']
     undecided_obl = [o for o in proof if o['status'] == 'undecided']
@@ -274,6 +279,10 @@ def report(prop, tier, seed, mod, results, native, wall):
         else:
             violations.append(('obligation', o))
     nat_fail = native.get('failures', [])
+    # probes of the trusted base decide nothing about the repository: a failing probe means an ASSUMPTION of the proofs does not
+    # hold on this installation -> the property is undecided (never a violation, never proved)
+    probe_fail = [nf for nf in nat_fail if str(nf.get('test', '')).startswith('trusted-base.')]
+    nat_fail = [nf for nf in nat_fail if nf not in probe_fail]
     nat_fail_new = []        # native failures that are not a recorded finding: only these may serve as the failing input of a
                              # failed obligation of the same function
     for nf in nat_fail:
@@ -382,6 +391,8 @@ def report(prop, tier, seed, mod, results, native, wall):
                      symbolic_bounded_discharged=len([o for o in bounded if o['status'] == 'discharged']),
                      symbolic_bounded_notes=sorted({n for r in results for n in r.get('bounded_notes', [])})),
         known_findings=known_lines,
+        trusted_base_probes=[dict(probe=t['test'], cases=t['cases'], failed=len([f for f in probe_fail if f.get('test') == t['test']]))
+                             for t in native.get('tests', []) if str(t.get('test', '')).startswith('trusted-base.')],
         samples=samples,
         obligations_per_item=per_item,
         source_files_read={k: v for r in results for k, v in r['read'].items()},
